@@ -396,33 +396,26 @@ def ldu(load_v, name):
   rep.check(ok, 'NOUTS', '%s:input_only-subset-of-state' % fi.site,
             'input-only variables must be state variables (0 <= nouts <= len)',
             {'counterexample': cex}, line=fi.node.lineno)
-  nasg = [n for n in ast.walk(fi.node) if isinstance(n, ast.Assign) and
-          core.norm(n.targets[0]) == 'nouts']
+  bvx = BlockVars(model)
   sasg = [n for n in ast.walk(fi.node) if isinstance(n, ast.Assign) and
           isinstance(n.value, ast.Call) and core.dotted(n.value.func) == 'sorted']
-  ok = len(nasg) == 1 and len(sasg) == 1
+  ok = bvx.nouts_assign is not None and bvx.input_only_name is not None and \
+      len(sasg) == 1
   facts = {}
   if ok:
-    ne = nasg[0].value
-    ok = isinstance(ne, ast.BinOp) and isinstance(ne.op, ast.Sub) and all(
-        isinstance(x, ast.Call) and core.dotted(x.func) == 'len' for x in
-        (ne.left, ne.right))
-    if ok:
-      total, sub = core.norm(ne.left.args[0]), core.norm(ne.right.args[0])
-      srt = sasg[0]
-      key = [k.value for k in srt.value.keywords if k.arg == 'key']
-      facts = {'nouts': core.norm(ne), 'sorted': core.norm(srt.value)}
-      ok = core.norm(srt.targets[0]) == total and len(key) == 1 and isinstance(
-          key[0], ast.Lambda) and isinstance(key[0].body, ast.Tuple) and \
-          isinstance(key[0].body.elts[0], ast.Compare) and isinstance(
-              key[0].body.elts[0].ops[0], ast.In) and core.norm(
-                  key[0].body.elts[0].comparators[0]) == sub and core.norm(
-                      key[0].body.elts[0].left) == key[0].args.args[0].arg and \
-          not any(k.arg == 'reverse' for k in srt.value.keywords)
-      # the returned list is the sorted one
-      ret = [r for r in ast.walk(fi.node) if isinstance(r, ast.Return)][0]
-      ok = ok and core.norm(ret.value.elts[0]) == total and core.norm(
-          ret.value.elts[2]) == 'nouts'
+    total, sub = bvx.total_name, bvx.input_only_name
+    srt = sasg[0]
+    key = [k.value for k in srt.value.keywords if k.arg == 'key']
+    facts = {'nouts': core.norm(bvx.nouts_assign.value),
+             'sorted': core.norm(srt.value)}
+    ok = core.norm(srt.targets[0]) == total and len(key) == 1 and isinstance(
+        key[0], ast.Lambda) and isinstance(key[0].body, ast.Tuple) and \
+        isinstance(key[0].body.elts[0], ast.Compare) and isinstance(
+            key[0].body.elts[0].ops[0], ast.In) and core.norm(
+                key[0].body.elts[0].comparators[0]) == sub and core.norm(
+                    key[0].body.elts[0].left) == key[0].args.args[0].arg and \
+        not any(k.arg == 'reverse' for k in srt.value.keywords)
+    ok = ok and bvx.state_name == total
   rep.check(ok, 'NOUTS', '%s:outputs-first' % fi.site,
             'nouts = len(state) - len(input_only) and the state list is sorted '
             'with `v in input_only` as first key component (outputs first); the '
@@ -442,15 +435,19 @@ def ldu(load_v, name):
             line=vi.node.lineno)
 
   # ---------------------------------------------------------------- OPTS
+  optv = [core.norm(n.targets[0]) for n in ast.walk(vf.node)
+          if isinstance(n, ast.Assign) and core.norm(n.value) ==
+          'self._create_loop_options(%s)' % vf.params()[0]]
+  ov = optv[0] if optv else 'opts'
   keys = [c for c in ast.walk(vf.node) if isinstance(c, ast.Call) and
-          core.norm(c.func) == 'opts.keys.append']
+          core.norm(c.func) == ov + '.keys.append']
   vals = [c for c in ast.walk(vf.node) if isinstance(c, ast.Call) and
-          core.norm(c.func) == 'opts.values.append']
+          core.norm(c.func) == ov + '.values.append']
   other = [c for c in ast.walk(vf.node) if isinstance(c, ast.Call) and
-           core.norm(c.func).startswith('opts.') and c not in keys + vals]
-  ok = len(keys) == 1 and len(vals) == 1 and not other and core.norm(
-      keys[0].args[0]) == "ast.Constant('iterate_names')" and \
-      'node.target' in core.norm(vals[0].args[0])
+           core.norm(c.func).startswith(ov + '.') and c not in keys + vals]
+  ok = len(optv) == 1 and len(keys) == 1 and len(vals) == 1 and not other and \
+      core.norm(keys[0].args[0]) == "ast.Constant('iterate_names')" and \
+      (vf.params()[0] + '.target') in core.norm(vals[0].args[0])
   rep.check(ok, 'OPTS', '%s:iterate_names' % vf.site,
             'for loops must append the key iterate_names and its value (the '
             'loop target text) at the same position of the options dict',
@@ -459,19 +456,27 @@ def ldu(load_v, name):
   clo = model.func(CF, 'ControlFlowTransformer._create_loop_options')
   annos = [core.norm(c) for c in ast.walk(clo.node) if isinstance(c, ast.Call) and
            (core.dotted(c.func) or '').startswith('anno.')]
-  ok = all('(node, anno.Basic.DIRECTIVES' in a for a in annos) and len(annos) >= 2 \
-      and 'directives.set_loop_options' in core.norm(clo.node)
-  rets = [core.norm(r.value) for r in ast.walk(clo.node) if isinstance(r, ast.Return)]
-  rep.check(ok and 'ast.Dict(keys=keys, values=values)' in rets, 'OPTS',
+  cp = clo.params()[0]
+  ok = all(('(%s, anno.Basic.DIRECTIVES' % cp) in a for a in annos) and len(annos) >= 2
+  rets = [r for r in ast.walk(clo.node) if isinstance(r, ast.Return)]
+  full = [r for r in rets if isinstance(r.value, ast.Call) and core.dotted(
+      r.value.func) == 'ast.Dict' and any(k.arg == 'keys' and not (
+          isinstance(k.value, ast.List) and not k.value.elts) for k in r.value.keywords)]
+  okf = len(full) == 1
+  n1, b1 = pat.first(clo.node, '_D_ = anno.getanno(%s, anno.Basic.DIRECTIVES)' % cp)
+  okf = okf and b1 is not None and pat.has(
+      clo.node, '_O_ = _D_[directives.set_loop_options]', b1)
+  rep.check(ok and okf, 'OPTS',
             '%s:own-directives-only' % clo.site,
             'loop options must be read from the loop node\'s own DIRECTIVES '
             'annotation (set_loop_options entry)', {'anno_calls': annos},
             line=clo.node.lineno)
   psd = model.func(DIRS, 'DirectivesTransformer._process_statement_directive')
-  src = core.norm(psd.node)
-  ok = 'target = self.state[_LoopScope].ast_node' in src and \
-      'anno.setanno(target, anno.Basic.DIRECTIVES, node_anno)' in src and \
-      'node_anno[directive] = _map_args(call_node, directive)' in src
+  pp = psd.params()
+  n1, b1 = pat.first(psd.node, '_T_ = self.state[_LoopScope].ast_node')
+  ok = b1 is not None and pat.has(
+      psd.node, 'anno.setanno(_T_, anno.Basic.DIRECTIVES, _A_)', b1) and pat.has(
+          psd.node, '_A_[%s] = _map_args(%s, %s)' % (pp[1], pp[0], pp[1]))
   rep.check(ok, 'OPTS', '%s:innermost-loop' % psd.site,
             'a loop directive must be recorded on the innermost enclosing loop '
             'node', line=psd.node.lineno)
